@@ -13,6 +13,5 @@
 (***************************************************************************)
 EXTENDS Schedule
 
-HostRaw   == ndJsonDeserialize("cases.ndjson")
-HostCases == {HostRaw[i] : i \in DOMAIN HostRaw}
+HostCases == ndJsonDeserialize("cases.ndjson")      \* a sequence, one case per line
 =============================================================================
